@@ -13,7 +13,7 @@ Extraction "model.ml"
   band bor bnot bimplies bite beq bxor bnor bnand bvar bconst aln amn exn
   count_leq count_lt count_geq count_gt count_eq bex1 bex ball fp_f bmodel binfer retain clean
   rebuild_lit build_tt run run_infer
-  verdict_fun verdict_model verdict_retain verdict_infer find_diff
+  verdict_fun verdict_model verdict_retain verdict_infer find_diff find_diff_any
   lex_raw tokenize parse eval_f parsed_formula parsed_of_tokens ident_names name_table name_of ordering_of_file cli
   set_run set_ref h_new h_mk_choice h_mk_const
   dot_nodes dot_edges subterms label out_edges rebuild
